@@ -86,13 +86,25 @@ func ReqQueryAdd(req *bfe_basic.Request, params []string) {
 	}
 }
 
+// queryPartKey returns the decoded key of one part ("key=value", "key=" or
+// "key") of a raw query. ok is false if the key can not be decoded.
+func queryPartKey(part string) (key string, ok bool) {
+	if i := strings.Index(part, "="); i >= 0 {
+		part = part[:i]
+	}
+
+	key, err := url.QueryUnescape(part)
+	if err != nil {
+		return "", false
+	}
+
+	return key, true
+}
+
 // ReqQueryRename renames query key from old name to new name.
 func ReqQueryRename(req *bfe_basic.Request, oldName string, newName string) {
 	var values []string
 	var ok bool
-
-	// add prefix "&" to simplify process
-	rawQuery := "&" + req.HttpRequest.URL.RawQuery
 
 	// parse the query
 	queries := queryParse(req)
@@ -106,58 +118,53 @@ func ReqQueryRename(req *bfe_basic.Request, oldName string, newName string) {
 	queries.Del(oldName)
 	queries[newName] = values
 
-	// rename keys
-	srcKey := "&" + oldName + "="
-	dstKey := "&" + newName + "="
-	rawQuery = strings.Replace(rawQuery, srcKey, dstKey, -1)
+	// rename keys, compare decoded keys and keep other parts unchanged
+	parts := strings.Split(req.HttpRequest.URL.RawQuery, "&")
+	for i, part := range parts {
+		if key, ok := queryPartKey(part); ok && key == oldName {
+			if j := strings.Index(part, "="); j >= 0 {
+				parts[i] = newName + part[j:]
+			} else {
+				parts[i] = newName
+			}
+		}
+	}
 
-	// remove prefix "&"
-	req.HttpRequest.URL.RawQuery = rawQuery[1:]
+	req.HttpRequest.URL.RawQuery = strings.Join(parts, "&")
 }
 
 // ReqQueryDel deletes some keys from query
 func ReqQueryDel(req *bfe_basic.Request, keys []string) {
-	// add "&" prefix and suffix to simplify process
-	rawQuery := "&" + req.HttpRequest.URL.RawQuery + "&"
-
 	// parse the query
 	queries := queryParse(req)
+
+	// prepare map for keys
+	keysMap := make(map[string]bool)
+	for _, key := range keys {
+		keysMap[key] = true
+	}
 
 	// delete some keys from queries
 	for _, key := range keys {
 		queries.Del(key)
+	}
 
-		for {
-			// find key start &key=
-			start := strings.Index(rawQuery, "&"+key+"=")
-			if start == -1 {
-				break
-			}
-
-			// find value end
-			end := strings.Index(rawQuery[start+1:], "&")
-			if end == -1 {
-				break
-			}
-
-			// remove start:start+end part
-			rawQuery = rawQuery[:start] + rawQuery[start+end+1:]
+	// delete parts of given keys from rawQuery, compare decoded keys
+	// and keep other parts unchanged
+	parts := strings.Split(req.HttpRequest.URL.RawQuery, "&")
+	remains := make([]string, 0, len(parts))
+	for _, part := range parts {
+		if key, ok := queryPartKey(part); ok && keysMap[key] {
+			continue
 		}
+		remains = append(remains, part)
 	}
 
-	// set rawQuery, remove "&" prefix and suffix
-	if len(rawQuery) == 1 {
-		req.HttpRequest.URL.RawQuery = ""
-	} else {
-		req.HttpRequest.URL.RawQuery = rawQuery[1 : len(rawQuery)-1]
-	}
+	req.HttpRequest.URL.RawQuery = strings.Join(remains, "&")
 }
 
 // ReqQueryDelAllExcept deletes all keys from query, except some keys
 func ReqQueryDelAllExcept(req *bfe_basic.Request, keys []string) {
-	// add "&" prefix and suffix to simplify process
-	rawQuery := "&" + req.HttpRequest.URL.RawQuery + "&"
-
 	// parse the query
 	queries := queryParse(req)
 
@@ -174,28 +181,17 @@ func ReqQueryDelAllExcept(req *bfe_basic.Request, keys []string) {
 		}
 
 		queries.Del(key)
-		for {
-			// find key start
-			start := strings.Index(rawQuery, "&"+key+"=")
-			if start == -1 {
-				break
-			}
+	}
 
-			// find value end
-			end := strings.Index(rawQuery[start+1:], "&")
-			if end == -1 {
-				break
-			}
-
-			// remove start:start+end part
-			rawQuery = rawQuery[:start] + rawQuery[start+end+1:]
+	// delete all parts from rawQuery, except keys in keysMap, compare
+	// decoded keys and keep remaining parts unchanged
+	parts := strings.Split(req.HttpRequest.URL.RawQuery, "&")
+	remains := make([]string, 0, len(parts))
+	for _, part := range parts {
+		if key, ok := queryPartKey(part); ok && keysMap[key] {
+			remains = append(remains, part)
 		}
 	}
 
-	// set rawQuery, remove "&" prefix and suffix
-	if len(rawQuery) == 1 {
-		req.HttpRequest.URL.RawQuery = ""
-	} else {
-		req.HttpRequest.URL.RawQuery = rawQuery[1 : len(rawQuery)-1]
-	}
+	req.HttpRequest.URL.RawQuery = strings.Join(remains, "&")
 }
